@@ -36,3 +36,4 @@ def run(ctx):
     ctx.run("C01.REDUCE", "R-DUAL", par.c01_reduce)
     ctx.run("C04.RESET", "R-RESET", par.c04_reset)
     ctx.run("C04.CALLID", "R-LOCK/R-ORDER", par.c04_callid)
+    ctx.run("C04.CALLBACK-TOTAL", "R-ORDER", par.c04_callback_total)
